@@ -8,6 +8,7 @@ package main
 
 import (
 	"fmt"
+	"go/constant"
 	"go/token"
 	"go/types"
 	"sort"
@@ -201,6 +202,16 @@ func simplify(t *Term) *Term {
 		}
 		if base != t.A[0] {
 			return &Term{Op: t.Op, A: []*Term{base}, Typ: t.Typ, Obj: t.Obj, Pos: t.Pos}
+		}
+	}
+	// append(<empty>, x...) is a copy of x: the same value
+	if t.Op == "append" && len(t.A) == 2 && t.A[1].Op == "spread" && len(t.A[1].A) == 1 && isByteSliceTerm(t) && knownEmptyList(t.A[0]) {
+		return t.A[1].A[0]
+	}
+	// the element of a list that consists of one element appended to an empty list is that element
+	if t.Op == "elem" && len(t.A) == 1 {
+		if l := stripConv(t.A[0]); l.Op == "append" && len(l.A) == 2 && l.A[1].Op != "spread" && knownEmptyList(l.A[0]) {
+			return l.A[1]
 		}
 	}
 	// the element of a collection that a module function gathers from a store scan is the scanned record
@@ -1055,4 +1066,130 @@ func typeUnderlyingBasic(T types.Type) (*types.Basic, bool) {
 	}
 	b, ok := T.Underlying().(*types.Basic)
 	return b, ok
+}
+
+// isBoolConst: t is the boolean literal, or a named constant whose value is that boolean.
+func isBoolConst(t *Term, want bool) bool {
+	t = stripConv(t)
+	if t == nil || t.Op != "" {
+		return false
+	}
+	if t.IsAt("#true") {
+		return want
+	}
+	if t.IsAt("#false") {
+		return !want
+	}
+	if k, ok := t.Obj.(*types.Const); ok && k.Val().Kind() == constant.Bool {
+		return constant.BoolVal(k.Val()) == want
+	}
+	return false
+}
+
+// sameConstAs: t is the named constant ref (an atom such as "#types.RUNNING"), or another named constant of the same type
+// with the same value (an alias introduced for readability).
+func sameConstAs(t, ref *Term) bool {
+	t, ref = stripConv(t), stripConv(ref)
+	if t == nil || ref == nil || t.Op != "" {
+		return false
+	}
+	if t.At == ref.At {
+		return true
+	}
+	k1, ok1 := t.Obj.(*types.Const)
+	k2, ok2 := ref.Obj.(*types.Const)
+	if ok1 && ok2 && types.Identical(k1.Type(), k2.Type()) {
+		return constant.Compare(k1.Val(), token.EQL, k2.Val())
+	}
+	return false
+}
+
+// listElems: the elements of a list value built as a composite literal, or by appends onto one (or onto a made / empty
+// slice); ok is false for any other shape (a spread argument, an unknown base).
+func listElems(t *Term) ([]*Term, bool) {
+	t = stripConv(t)
+	if t == nil {
+		return nil, false
+	}
+	switch {
+	case t.Op == "lit":
+		return t.A[1:], true
+	case t.Op == "make" || t.IsAt("zero") || t.IsAt("#nil"):
+		return nil, true
+	case t.Op == "append" && len(t.A) >= 1:
+		base, ok := listElems(t.A[0])
+		if !ok {
+			return nil, false
+		}
+		out := append([]*Term{}, base...)
+		for _, a := range t.A[1:] {
+			if a.Op == "spread" {
+				inner, ok := listElems(a.A[0])
+				if !ok {
+					return nil, false
+				}
+				out = append(out, inner...)
+				continue
+			}
+			out = append(out, a)
+		}
+		return out, true
+	}
+	return nil, false
+}
+
+// knownEmptyList / knownNonEmptyList: what a list value is known to be on a path.
+func knownEmptyList(t *Term) bool {
+	t = stripConv(t)
+	if t == nil {
+		return false
+	}
+	switch {
+	case t.IsAt("zero") || t.IsAt("#nil"):
+		return true
+	case t.Op == "lit" && len(t.A) == 1:
+		return strings.HasPrefix(t.A[0].At, "[]")
+	case t.Op == "make" && len(t.A) >= 2:
+		return t.A[1].IsAt("#0")
+	}
+	return false
+}
+
+func knownNonEmptyList(t *Term) bool {
+	t = stripConv(t)
+	if t == nil {
+		return false
+	}
+	if t.Op == "append" && len(t.A) >= 2 {
+		for _, a := range t.A[1:] {
+			if a.Op != "spread" {
+				return true
+			}
+		}
+		return knownNonEmptyList(t.A[0])
+	}
+	return t.Op == "lit" && len(t.A) >= 2 && strings.HasPrefix(t.A[0].At, "[]")
+}
+
+// isByteSliceTerm: the term is typed []byte (or carries a []byte conversion at its base).
+func isByteSliceTerm(t *Term) bool {
+	if t.Typ != nil {
+		return isByteSlice(t.Typ)
+	}
+	b := t.A[0]
+	if b.Op == "conv" && len(b.A) >= 1 && b.A[0].IsAt("[]byte") {
+		return true
+	}
+	return b.Typ != nil && isByteSlice(b.Typ)
+}
+
+// isSliceTypeTerm: a list-valued construction (not a struct literal).
+func isSliceTypeTerm(t *Term) bool {
+	switch t.Op {
+	case "append":
+		return true
+	case "lit", "make":
+		return len(t.A) >= 1 && t.A[0].Op == "" && strings.HasPrefix(t.A[0].At, "[]")
+	}
+	return false
 }
